@@ -620,3 +620,173 @@ Proof.
       * apply (snap_ok_store sto _ m); [assumption|destruct m, (w_q w); reflexivity|]. apply keep_failed_mark; assumption.
   - (* Observe *) cbn. auto.
 Qed.
+
+(* ------------------------------------------------------------------ reachability *)
+
+Lemma run_app s a b :
+  run s (a ++ b) = let '(s1, o1) := run s a in let '(s2, o2) := run s1 b in (s2, o1 ++ o2).
+Proof.
+  revert s. induction a as [|o a IH]; intros s; cbn.
+  - destruct (run s b). reflexivity.
+  - destruct (step s o) as [s1 r]. rewrite IH. destruct (run s1 a) as [s2 rs]. destruct (run s2 b). reflexivity.
+Qed.
+
+Lemma inv_init c : Inv (init c).
+Proof. split; cbn; [constructor|exact I]. Qed.
+
+Lemma inv_run s ops : Inv s -> Inv (fst (run s ops)).
+Proof.
+  revert s. induction ops as [|o ops IH]; intros s H; cbn; [assumption|].
+  pose proof (inv_step s o H) as H1. destruct (step s o) as [s1 r]. cbn in H1.
+  specialize (IH s1 H1). destruct (run s1 ops). assumption.
+Qed.
+
+(* every state of every history of operations (illegal ones have no effect) from an empty store *)
+Definition reachable (s : st) : Prop := exists c ops, s = fst (run (init c) ops).
+
+Lemma reachable_inv s : reachable s -> Inv s.
+Proof. intros [c [ops ->]]. apply inv_run, inv_init. Qed.
+
+Lemma reachable_step s o : reachable s -> reachable (fst (step s o)).
+Proof.
+  intros [c [ops ->]]. exists c, (ops ++ [o]). rewrite run_app.
+  destruct (run (init c) ops) as [s1 o1]. cbn. destruct (step s1 o). reflexivity.
+Qed.
+
+Lemma reachable_run s ops : reachable s -> reachable (fst (run s ops)).
+Proof.
+  intros [c [ops0 ->]]. exists c, (ops0 ++ ops). rewrite run_app.
+  destruct (run (init c) ops0) as [s1 o1]. cbn. destruct (run s1 ops). reflexivity.
+Qed.
+
+(* ------------------------------------------------------------------ consequences *)
+
+(* C30 clause: a stored pending task is never outside the queues / the executor / an enqueue in flight *)
+Lemma no_lost_task s m t :
+  Inv s -> s_mgr s = Some m -> pendingb t (s_store s) = true ->
+  cnt (held m) t = 1%nat /\
+  (In t (m_in m) \/ In t (m_re m) \/ In t (executing m) \/ In t (add_held (m_add m)) \/ In t (p_held (m_poll m))).
+Proof.
+  intros [_ H] M P. rewrite M in H. destruct H as [Hh _]. pose proof (Hh t) as K. rewrite P in K.
+  split; [assumption|]. apply held_iff. apply (count_occ_In N.eq_dec). lia.
+Qed.
+
+(* conversely nothing is held that is not a stored pending task, and never twice *)
+Lemma held_is_pending s m t :
+  Inv s -> s_mgr s = Some m -> In t (held m) -> pendingb t (s_store s) = true /\ cnt (held m) t = 1%nat.
+Proof.
+  intros [_ H] M Hin. rewrite M in H. destruct H as [Hh _].
+  pose proof (held_pending _ _ _ Hh Hin) as P. split; [assumption|]. rewrite (Hh t), P. reflexivity.
+Qed.
+
+Lemma storedb_app t s1 s2 : storedb t (s1 ++ s2) = storedb t s1 || storedb t s2.
+Proof. apply existsb_app. Qed.
+
+(* C30 clause: a task leaves the store only by the worker's Remove after a successful execution *)
+Lemma removal_step s o t :
+  Inv s -> storedb t (s_store s) = true -> storedb t (s_store (fst (step s o))) = false ->
+  o = OpExecFin t /\ last_ev t (s_log s) = Some (ERet t true).
+Proof.
+  destruct s as [c sto now mg log]. unfold Inv. cbn [s_store s_mgr s_log]. intros [Hn Hm] S S'.
+  destruct o; unfold step in S'; cbn [s_store s_mgr s_log s_cfg s_now] in S'.
+  all: try (destruct mg as [m|]; [|cbn [s_store fst with_mgr with_sm] in S'; congruence]).
+  all: try (cbn [s_store fst with_mgr with_sm] in S'; congruence).
+  - destruct mg; [cbn [s_store fst with_mgr with_sm] in S'; congruence|].
+    destruct (order_ok order (pending_ids sto)); cbn [s_store fst with_mgr with_sm] in S'; [|congruence].
+    rewrite (storedb_ids _ sto) in S' by apply ids_mark_failed_all. congruence.
+  - destruct mg; [cbn [s_store fst with_mgr with_sm] in S'; congruence|].
+    destruct (order_ok order (pending_ids sto)); cbn [s_store fst with_mgr with_sm] in S'; [|congruence].
+    rewrite (storedb_ids _ sto) in S' by apply ids_mark_failed_all. congruence.
+  - destruct (m_closed m && _); cbn [s_store fst with_mgr with_sm] in S'; congruence.
+  - destruct (existsb _ _); [cbn [s_store fst with_mgr with_sm] in S'; congruence|]. destruct (m_closed m); cbn [s_store fst with_mgr with_sm] in S'; congruence.
+  - destruct (pick _ _) as [[[b [a' [t1 d| |]]] af]|]; try (cbn [s_store fst with_mgr with_sm] in S'; congruence).
+    destruct (add_row _ _ _ _ _) eqn:A; [|cbn [s_store fst with_mgr with_sm] in S'; congruence].
+    apply add_row_some in A as [_ ->]. destruct (d =? 0); cbn [s_store fst with_mgr with_sm] in S'; rewrite storedb_app, S in S'; discriminate.
+  - destruct (pick _ _) as [[[b [a' [t1 d|t1|t1]]] af]|]; try (cbn [s_store fst with_mgr with_sm] in S'; congruence).
+    destruct (has_room QIn c m); cbn [s_store fst with_mgr with_sm] in S'; congruence.
+  - destruct (pick _ _) as [[[b [a' [t1 d|t1|t1]]] af]|]; try (cbn [s_store fst with_mgr with_sm] in S'; congruence).
+    cbn [s_store fst with_mgr with_sm] in S'. rewrite storedb_mark_failed in S'. congruence.
+  - destruct (m_poll m); [cbn [s_store fst with_mgr with_sm] in S'; congruence|]. destruct (order_ok _ _); cbn [s_store fst with_mgr with_sm] in S'; congruence.
+  - destruct (m_poll m) as [[[|r rest]|t1 rest|t1 rest]|]; try (cbn [s_store fst with_mgr with_sm] in S'; congruence).
+    destruct (due _ _ _); [destruct (storedb (r_id r) sto)|]; cbn [s_store fst with_mgr with_sm] in S'; rewrite ?storedb_mark_pending in S'; congruence.
+  - destruct (m_poll m) as [[rest|t1 rest|t1 rest]|]; try (cbn [s_store fst with_mgr with_sm] in S'; congruence).
+    destruct (has_room QRe c m); cbn [s_store fst with_mgr with_sm] in S'; congruence.
+  - destruct (m_poll m) as [[rest|t1 rest|t1 rest]|]; try (cbn [s_store fst with_mgr with_sm] in S'; congruence).
+    cbn [s_store fst with_mgr with_sm] in S'. rewrite storedb_mark_failed in S'. congruence.
+  - destruct (queue_of q m); [cbn [s_store fst with_mgr with_sm] in S'; congruence|]. destruct (0 <? idle_of q m); cbn [s_store fst with_mgr with_sm] in S'; congruence.
+  - destruct (pick _ _) as [[[b w] af]|]; cbn [s_store fst with_mgr with_sm] in S'; congruence.
+  - destruct Hm as [Hh [Hs Hl]].
+    destruct (pick _ _) as [[[b w] af]|] eqn:P; [|cbn [s_store fst with_mgr with_sm] in S'; congruence].
+    apply pick_spec in P as [P Pf]. apply andb_true_iff in Pf as [Pf1 Pf2]. apply N.eqb_eq in Pf1.
+    destruct (w_ph w) as [|[|]] eqn:Ph; cbn [s_store fst with_mgr with_sm] in S'; rewrite ?storedb_mark_failed in S'; try congruence.
+    rewrite storedb_remove, S, andb_true_r in S'. destruct (t =? t0) eqn:E; [|discriminate].
+    apply N.eqb_eq in E. rewrite <- E in *. split; [reflexivity|].
+    assert (Hin : In w (m_work m)) by (rewrite P; apply in_or_app; right; left; reflexivity).
+    specialize (Hl w Hin). rewrite Ph, Pf1 in Hl. exact Hl.
+Qed.
+
+(* C30 clause: adding a task that is already stored has no further effect: the complete Add call
+   (closed check, then AddPending/AddFailed answering ErrTaskExists) leaves the state as it was *)
+Lemma add_existing_noop s m a t d :
+  s_mgr s = Some m -> m_closed m = false -> existsb (fun p => fst p =? a) (m_add m) = false ->
+  storedb t (s_store s) = true ->
+  run s [OpAddCheck a t d; OpAddStore a] = (s, [ODone; OExists]).
+Proof.
+  destruct s as [c sto now mg log]. cbn [s_mgr s_store]. intros -> Cl Fr St.
+  destruct m as [cl qi qr ii ir wk ad pl]. cbn in Cl, Fr. subst cl.
+  cbn [run]. unfold step at 1. cbn [s_mgr s_cfg s_store s_now m_add m_closed]. rewrite Fr.
+  unfold with_mgr, set_add.
+  cbn [s_cfg s_store s_now s_log m_closed m_in m_re m_idle_in m_idle_re m_work m_add m_poll].
+  unfold step. cbn [s_mgr s_cfg s_store s_now m_add pick fst]. rewrite N.eqb_refl.
+  unfold add_row. rewrite St. cbn. reflexivity.
+Qed.
+
+(* the same at the level of the store call, for any interleaving in between *)
+Lemma add_store_existing s m a b af t d :
+  s_mgr s = Some m -> pick (fun p => fst p =? a) (m_add m) = Some (b, (a, AStore t d), af) ->
+  storedb t (s_store s) = true ->
+  step s (OpAddStore a) = (with_mgr s (Some (set_add (b ++ af) m)), OExists).
+Proof.
+  destruct s as [c sto now mg log]. cbn [s_mgr s_store]. intros -> P St.
+  unfold step. cbn [s_mgr s_cfg s_store s_now]. rewrite P. unfold add_row. rewrite St. reflexivity.
+Qed.
+
+Lemma all_failed sto : (forall t, pendingb t sto = false) -> forall r, In r sto -> r_st r = Failed.
+Proof.
+  intros H r Hin. destruct (r_st r) eqn:E; [|reflexivity].
+  specialize (H (r_id r)). rewrite (row_pendingb r sto Hin E) in H. discriminate.
+Qed.
+
+Lemma start_order_exists s : Inv s -> order_ok (pending_ids (s_store s)) (pending_ids (s_store s)) = true.
+Proof. intros [Hn _]. apply order_ok_refl. unfold pending_ids. apply NoDup_ids_filter. assumption. Qed.
+
+(* C30 clause: a restart (at any point, also in the middle of an execution) recovers every
+   unfinished task: nothing is dropped, every task is Failed (hence eligible for the poller),
+   and the new manager starts with empty queues and idle workers *)
+Lemma restart_recovers s order :
+  order_ok order (pending_ids (s_store s)) = true ->
+  let r := run s [OpCrash; OpStart order] in
+  snd r = [ODone; ODone] /\
+  ids (s_store (fst r)) = ids (s_store s) /\
+  (forall x, In x (s_store (fst r)) -> r_st x = Failed) /\
+  s_mgr (fst r) = Some (fresh_mgr (s_cfg s)) /\ s_log (fst r) = s_log s /\ s_now (fst r) = s_now s /\
+  s_cfg (fst r) = s_cfg s.
+Proof.
+  destruct s as [c sto now mg log]. cbn [s_store s_cfg s_log s_now]. intros O.
+  cbn [run]. unfold step at 1. cbn [with_mgr s_cfg s_store s_now s_log].
+  unfold step. cbn [s_mgr s_store s_cfg s_now s_log]. rewrite O. cbn [fst snd s_store s_mgr s_log s_now s_cfg].
+  repeat split; try reflexivity.
+  - apply ids_mark_failed_all.
+  - apply all_failed. intros t. rewrite pendingb_mark_failed_all.
+    destruct (memb t order) eqn:E; cbn; [reflexivity|].
+    destruct (pendingb t sto) eqn:P; [|reflexivity]. apply in_pending_ids in P.
+    apply (order_ok_spec _ _ O) in P. apply memb_In in P. congruence.
+Qed.
+
+(* a start that dies after k MarkFailed calls drops nothing either *)
+Lemma start_crash_keeps s order k :
+  ids (s_store (fst (step s (OpStartCrash order k)))) = ids (s_store s).
+Proof.
+  destruct s as [c sto now mg log]. unfold step. cbn [s_mgr s_store s_cfg s_now s_log].
+  destruct mg; [reflexivity|]. destruct (order_ok _ _); [|reflexivity]. cbn. apply ids_mark_failed_all.
+Qed.
